@@ -477,7 +477,7 @@ def describe(prop):
         rule=('run = (hash section of a corpus image, seeded injected index events, seeded query list with cursor displacement, '
               'optionally the table reached through the dynamic segment of the image without section headers). Queries: present names, '
               'constructed absent names with the same full hash, rejection-sampled absent names in the bucket of a present one, random absent names, '
-              'empty and non-ASCII names, names of unhashed symbols. Events (stored bytes): 31-bit hash collision written into an earlier chain word, '
+              'empty and non-ASCII names, names of unhashed symbols; enumerations of the held table in between (abandoned after k entries, resumed later, or complete). Events (stored bytes): 31-bit hash collision written into an earlier chain word, '
               'bloom bits set for an absent name. Model: linear scan of the linked table + raw bucket/chain walk; on synthetic images (own ELF writer) the ground truth of the writer: '
               'names, every symbol field (value, size, binding, type, visibility, other bits, section index) and the SHT_SYMTAB_SHNDX companion words. '
               'Non-trivial = the table hashes at least one symbol; distinct by (table, events, query list)'),
